@@ -95,8 +95,11 @@ struct String {
     }
 
     String &operator=(const Char_T *str) {
-        deallocate();
+        // 'str' can point into this string's own storage; the old block is released after the copy is made.
+        Char_T *old_storage = Storage();
+
         copyString(str, StringUtils::Count(str));
+        Memory::Deallocate(old_storage);
         return *this;
     }
 
